@@ -161,14 +161,32 @@ func syncMethod(info *types.Info, c *ast.CallExpr) (string, ast.Expr, bool) {
 		hook = "RLock"
 	case "RWMutex.RUnlock":
 		hook = "RUnlock"
+	case "Mutex.TryLock":
+		hook = "TryLock"
+	case "RWMutex.TryLock":
+		hook = "RWTryLock"
+	case "RWMutex.TryRLock":
+		hook = "TryRLock"
 	default:
 		return "", nil, false
 	}
-	if len(s.Index()) != 1 {
-		return "", nil, false // promoted through embedding: leave alone
-	}
+	// A method promoted through embedding (type T struct{ sync.Mutex }; t.Lock()): spell
+	// out the path to the embedded field.
 	x := se.X
-	if _, isPtr := info.TypeOf(x).Underlying().(*types.Pointer); !isPtr {
+	t := info.TypeOf(x)
+	for _, idx := range s.Index()[:len(s.Index())-1] {
+		if p, ok := t.Underlying().(*types.Pointer); ok {
+			t = p.Elem()
+		}
+		st, ok := t.Underlying().(*types.Struct)
+		if !ok || idx >= st.NumFields() {
+			return "", nil, false
+		}
+		f := st.Field(idx)
+		x = &ast.SelectorExpr{X: x, Sel: ast.NewIdent(f.Name())}
+		t = f.Type()
+	}
+	if _, isPtr := t.Underlying().(*types.Pointer); !isPtr {
 		x = &ast.UnaryExpr{Op: token.AND, X: x}
 	}
 	return hook, x, true
@@ -244,19 +262,26 @@ func rewriteFile(p *packages.Package, f *ast.File) bool {
 		switch n := c.Node().(type) {
 		case *ast.ExprStmt:
 			if ce, ok := n.X.(*ast.CallExpr); ok {
-				if hook, x, ok := syncMethod(info, ce); ok {
+				if hook, x, ok := syncMethod(info, ce); ok && !strings.Contains(hook, "Try") {
 					n.X = call(hook, x)
 					count("sync." + hook)
 					changed = true
 				}
 			}
 		case *ast.DeferStmt:
-			if hook, x, ok := syncMethod(info, n.Call); ok {
+			if hook, x, ok := syncMethod(info, n.Call); ok && !strings.Contains(hook, "Try") {
 				n.Call = call(hook, x)
 				count("sync." + hook)
 				changed = true
 			}
 		case *ast.CallExpr:
+			if hook, x, ok := syncMethod(info, n); ok && strings.Contains(hook, "Try") {
+				// (the only locking calls that are expressions: they return a result)
+				c.Replace(call(hook, x))
+				count("sync." + hook)
+				changed = true
+				return true
+			}
 			// An *io.PipeReader / *io.PipeWriter handed to code that sees it as an
 			// interface (io.ReadAll, io.Copy, io.MultiWriter, a registry's PushBlob ...) is
 			// a blocking primitive the rewrite cannot see into: wrap it so that the
@@ -340,7 +365,7 @@ func rewriteFile(p *packages.Package, f *ast.File) bool {
 		case *ast.SelectorExpr:
 			if obj, ok := info.Uses[n.Sel].(*types.TypeName); ok && obj.Pkg() != nil && obj.Pkg().Path() == "sync" {
 				switch obj.Name() {
-				case "Cond", "WaitGroup":
+				case "Cond", "WaitGroup", "Once", "Locker":
 					uncontrolled(fset, n.Pos(), "sync."+obj.Name())
 				}
 			}
